@@ -1,0 +1,26 @@
+//go:build verif
+
+package core
+
+// Contracts for the synchronization core. Comment-only file: compiled only
+// under the "verif" build tag, contains no code. The "//@" lines are read by
+// /verif/govc.
+
+// ------------------------------------------------------------------ C16
+// Portable symbolic links. The oracle is POSIX lexical resolution of the
+// target relative to the directory containing the link: an empty component
+// and "." keep the depth, ".." decreases it, any other name increases it.
+// nslash/ncomp/comp are the abstract "/"-structure of a string (trusted
+// contracts of strings.Count and strings.Split).
+
+//@ spec delta(c) int = c == ".." ? -1 : ((c == "." || c == "") ? 0 : 1)
+//@ spec rec pdepth(path, target, k) int = k <= 0 ? nslash(path) : pdepth(path, target, k - 1) + delta(comp(target, k - 1))
+
+//@ func normalizeSymbolicLinkAndEnsurePortable
+//@   ensures[shape] result1 == nil ==> len(target) > 0 && len(target) <= 247 && target[0] != '/'
+//@   ensures[chars] result1 == nil ==> forall i in 0..len(target) :: target[i] != ':' && target[i] != '\\'
+//@   ensures[same] result1 == nil ==> result0 == target
+//@   ensures[inside] result1 == nil ==> forall k in 0..ncomp(target)+1 :: pdepth(path, target, k) >= 0
+//@   loop 1 invariant[inside] pathDepth == pdepth(path, target, rangeindex + 1)
+//@   loop 1 invariant[inside] forall j in 0..rangeindex+2 :: pdepth(path, target, j) >= 0
+//@   loop 1 invariant rangeindex < ncomp(target)
